@@ -173,7 +173,7 @@ pub const KINDS: [&str; 16] = [
     "result-prepared",
     "result-schema-change",
 ];
-pub const TARGETS: [&str; 14] = [
+pub const TARGETS: [&str; 16] = [
     "Row",
     "Raw",
     "(i32,String)",
@@ -188,6 +188,8 @@ pub const TARGETS: [&str; 14] = [
     "(i64,bool,blob,uuid,inet,f64)",
     "(Option<UdtAB>,)",
     "(Option<Vec<f32>>,)",
+    "(Option<UdtLoose>,)",
+    "(Option<UdtOrdered>,)",
 ];
 
 /// stage code: index into STAGES, or 100 + index into TARGETS for "rows<target>"
@@ -486,6 +488,24 @@ struct UdtAB {
     b: Option<String>,
 }
 
+/// derived targets with the attributes that relax the type check: hostile UDT definitions (repeated, missing,
+/// excess, reordered field names) must still end in a value or an error
+#[derive(scylla::DeserializeValue)]
+struct UdtLoose {
+    a: Option<i32>,
+    #[scylla(allow_missing)]
+    b: Option<String>,
+}
+
+#[derive(scylla::DeserializeValue)]
+#[scylla(flavor = "enforce_order")]
+struct UdtOrdered {
+    #[scylla(allow_missing)]
+    a: Option<i32>,
+    #[scylla(allow_missing)]
+    b: Option<String>,
+}
+
 #[derive(scylla::DeserializeRow)]
 struct RowAB {
     a: i32,
@@ -602,6 +622,12 @@ fn run_targets(rows: &DeserializedMetadataAndRawRows, cap: u64, keep_text: bool,
     }));
     out.push(run_target::<(Option<Vec<f32>>,)>("(Option<Vec<f32>>,)", rows, cap, false, |(a,)| {
         Ok(sm::row(vec![opt(&a, |l| seq(l.iter().map(|x| sm::v_f32(x.to_bits())).collect()))]))
+    }));
+    out.push(run_target::<(Option<UdtLoose>,)>("(Option<UdtLoose>,)", rows, cap, false, |(u,)| {
+        Ok(sm::row(vec![opt(&u, |u| sm::v_udt(vec![("a".into(), opt(&u.a, |a| sm::v_int(*a as i64))), ("b".into(), opt(&u.b, |b| sm::v_text(b)))]))]))
+    }));
+    out.push(run_target::<(Option<UdtOrdered>,)>("(Option<UdtOrdered>,)", rows, cap, false, |(u,)| {
+        Ok(sm::row(vec![opt(&u, |u| sm::v_udt(vec![("a".into(), opt(&u.a, |a| sm::v_int(*a as i64))), ("b".into(), opt(&u.b, |b| sm::v_text(b)))]))]))
     }));
 }
 
